@@ -2,6 +2,7 @@ SPECIFICATION PSpec
 CONSTANTS
   Tries <- MCTries
   MaxEdits = 2
+  AllowImitate = TRUE
   AllowReweight = TRUE
   GenMode = TRUE
 INVARIANTS Complete EmitPlan
